@@ -2,7 +2,7 @@
 import vf
 
 NAME, MODULE, TRACE_MODULE, HARNESS, FIELDS = "tree", "TreeImpl", "TreeTrace", "replay_tree", ("a", "b")
-TRACE_CONSTS = dict(MaxKey=100000, Vals={1, 2, 3, 4, 5}, TidMod=256, WithIter=True, FixWrap=True, FixRootNext=True)
+TRACE_CONSTS = dict(MaxKey=100000, Vals={1, 2, 3, 4, 5, 6}, TidMod=256, WithIter=True, FixWrap=True, FixRootNext=True)
 
 
 def _replays(profiles, shapemax=15):
@@ -11,7 +11,7 @@ def _replays(profiles, shapemax=15):
 
 def _remap_values(segs, rot):
     """The model uses value ids 1,2; rotate them through the harness's value kinds (empty, embedded NUL, C string)."""
-    table = [{1: 1, 2: 2}, {1: 3, 2: 1}, {1: 4, 2: 5}, {1: 2, 2: 3}][rot % 4]
+    table = [{1: 1, 2: 2}, {1: 3, 2: 1}, {1: 4, 2: 6}, {1: 2, 2: 3}][rot % 4]
     out = []
     for seg in segs:
         out.append([dict(o, b=table.get(o["b"], o["b"])) if o["op"] == "put" else o for o in seg])
@@ -51,7 +51,8 @@ def models(tier):
     ms.append(dict(tag="shape-K%d" % k1, consts=dict(base, MaxKey=k1, Vals={1}, WithIter=False), invariants=inv, properties=prop,
                    workers=4, trace_consts=TRACE_CONSTS, replays=_replays([0, 1, 2, 3]), heap="8g"))
     ms.append(dict(tag="vals-K5", consts=dict(base, MaxKey=5, Vals={1, 2}, WithIter=False), invariants=inv, properties=prop,
-                   workers=2, trace_consts=TRACE_CONSTS, replays=_replays([1, 0, 3, 2])))
+                   workers=2, trace_consts=TRACE_CONSTS, replays=_replays([1, 0, 3, 2]),
+                   prelude=lambda segs: _remap_values(segs, 2)))       # values 4/6: same size, equal up to an embedded NUL
     ms.append(dict(tag="empty-K4", consts=dict(base, MaxKey=4, Vals={1, 2}, WithIter=False), invariants=inv, properties=prop,
                    workers=2, trace_consts=TRACE_CONSTS, replays=_replays([0, 1, 2, 3]),
                    prelude=lambda segs: _remap_values(segs, 1)))
@@ -102,7 +103,7 @@ def _rand(rng, steps, nkeys, walks=True):
         r = rng.random()
         k = rng.randint(1, nkeys)
         if r < 0.38:
-            seg.append(dict(op="put", a=k, b=rng.choice([1, 2, 2, 3, 4, 5, 1]))); present.add(k)
+            seg.append(dict(op="put", a=k, b=rng.choice([1, 2, 2, 3, 4, 5, 6, 4, 6]))); present.add(k)
         elif r < 0.60:
             if present and rng.random() < 0.7:
                 k = rng.choice(tuple(present)) if len(present) < 50 or rng.random() < 0.3 else k
